@@ -335,3 +335,9 @@ def envelope_gate(prop, cfg, tier, seed):
         _finish(ctx, accept, "Envelope() accepted an unsupported envelope")
 
     return ctx.run(body, cov_files=[ENV_SRC])
+
+
+def vhdx_gate(prop, cfg, tier, seed):
+    from harness import vhdxinit
+
+    return vhdxinit.container_task(prop, cfg, tier, seed)
